@@ -299,8 +299,10 @@ def run(pid, tier):
         vlib.harness_build(BIN)
         # ---- Leg M: generative tiny VM (design-level invariants of the same effect operators) ----
         if pid in ("C24", "C25", "C26") or thorough:
+            # (no -coverage: TLC's coverage bookkeeping of the recursive memory operators exhausts the heap; vacuity is
+            #  excluded by requiring a minimum number of distinct states instead)
             res = tc.model_check(chk, SPEC_MC, constants={"MaxDepth": 5 if thorough else 3}, workers=4, timeout=2400,
-                                 tag=pid + "_mc")
+                                 tag=pid + "_mc", coverage=False, min_states=500, xmx="6g")
             chk.set("model", dict(spec=SPEC_MC, depth=5 if thorough else 3, distinct_states=res.distinct,
                                   invariants=["GasInv", "ConstRegs", "PcOk", "StackOrder", "ZeroOutside"], properties=["GasNeverUp", "WritesOwned"]))
         else:
